@@ -1073,7 +1073,6 @@ fn region_bound(world: &World, t: &dumpgen::ThreadSpec) -> u64 {
     b.max(32)
 }
 
-/// (sum of usable stack bytes, thread count, largest memory region) of the dump as parsed.
 /// Upper bound on the inline frames one physical frame can expand into: the largest number of
 /// INLINE lines between two FUNC lines (whatever the parser makes of them).
 fn max_inlines_per_func(sym: &[u8]) -> usize {
@@ -1089,6 +1088,7 @@ fn max_inlines_per_func(sym: &[u8]) -> usize {
     best
 }
 
+/// (sum of usable stack bytes, thread count, largest memory region) of the dump as parsed.
 fn measure(bytes: &[u8], world: &World) -> (u64, u64, u64) {
     let mut total = world.total_stack_bytes;
     let mut n = world.threads.len() as u64;
@@ -1100,6 +1100,15 @@ fn measure(bytes: &[u8], world: &World) -> (u64, u64, u64) {
                 max_region = max_region.max(sizes.iter().copied().max().unwrap_or(0));
             }
             if let Ok(Ok(tl)) = simkit::runner::catch(|| d.get_stream::<minidump::MinidumpThreadList>()) {
+                // a thread's stack is what its own descriptor says (a copy of the memory-list
+                // entry in a well-formed dump, not necessarily in a damaged one), as far as the
+                // file has the bytes
+                for t in &tl.threads {
+                    let sz = t.raw.stack.memory.data_size as u64;
+                    if sz <= bytes.len() as u64 {
+                        max_region = max_region.max(sz);
+                    }
+                }
                 n = n.max(tl.threads.len() as u64);
                 total = total.max(tl.threads.len() as u64 * max_region);
             }
